@@ -46,6 +46,8 @@ type Node struct {
 
 	// detached containers kept with their old handle: the former parent and the parent handle OBJECT the old handle's
 	// update callback is bound to (see World.handle)
+	lastDepth int // tree depth of this (root) container after the previous operation on it (event counters)
+
 	fp    *Node
 	fpArr *atree.Array
 	fpMap *atree.OrderedMap
